@@ -247,7 +247,7 @@ def weave_item(repo, spec: ItemSpec, cache, log):
     base = [c[1] for _, c in segs if c is not None]
     bn = [norm(l) for l in base]; cn = [norm(l) for l in cur]
     out = []   # (origin, text)
-    info = {'item': spec.path, 'file': spec.file, 'src_line': it.line, 'hash': raw_hash, 'code_lines': len(cur), 'in_sync': bn == cn,
+    info = {'item': spec.path, 'kind': it.kind, 'file': spec.file, 'src_line': it.line, 'hash': raw_hash, 'code_lines': len(cur), 'in_sync': bn == cn,
             'annotation_lines': sum(len(ch) for ch, _ in segs), 'changed': []}
     def emit_chunk(ch):
         for no, t in ch: out.append((('ann', no), t))
